@@ -5,6 +5,7 @@ func newVisited() visitedComponent {
 		header:   make(map[*Header]struct{}),
 		schema:   make(map[*Schema]struct{}),
 		pathItem: make(map[*PathItem]struct{}),
+		rootPath: make(map[*Operation]string),
 	}
 }
 
@@ -12,6 +13,9 @@ type visitedComponent struct {
 	header   map[*Header]struct{}
 	schema   map[*Schema]struct{}
 	pathItem map[*PathItem]struct{}
+	// rootPath maps the operations of the path items under the document's paths to a reference to
+	// that path ("#/paths/~1a"): a copy of such a path item met further down is a cycle
+	rootPath map[*Operation]string
 }
 
 // resetVisited clears visitedComponent map
